@@ -12,7 +12,7 @@ RULE = ('files of n = 1..8 records x every position k of the bad record x fault 
         'operator message printed by print_exception_details; non-trivial = distinct case with k >= 2')
 EXHAUSTIVE = {'quick': False, 'thorough': False}
 ASSUMPTIONS = []
-FAULTS = ['truncated', 'oversize', 'mti', 'bit', 'fieldlen', 'typed', 'pds', 'icc']
+FAULTS = ['truncated', 'oversize', 'mti', 'bit', 'fieldlen', 'typed', 'pds', 'icc', 'supdigit', 'supdigit-pds', 'arabic-typed']
 
 
 def bm(bits):
@@ -36,6 +36,15 @@ def bad_record(kind, codec):
         return e('1144') + bm([1, 48]) + e('0100001abc123')
     if kind == 'icc':
         return e('1144') + bm([1, 55]) + e('001') + b'\x82'
+    if kind == 'supdigit':
+        # a length prefix holding a SUPERSCRIPT digit: str.isdigit() says yes, int() says no
+        return e('1144') + bm([1, 2]) + e('1\u00b2123456789012')
+    if kind == 'supdigit-pds':
+        return e('1144') + bm([1, 48]) + e('010') + e('000100\u00b3abc')
+    if kind == 'arabic-typed':
+        # digits of another script in a numeric element are not the library's problem to refuse or accept differently from
+        # int(): here a character the codec has but int() does not take
+        return e('1144') + bm([1, 4]) + e('00000000\u00bd123')
     raise ValueError(kind)
 
 
